@@ -545,11 +545,18 @@ MUTANTS = [
            "        for p in sorted(self._rx_phases):\n            self._W.received(self._rx_phases.pop(p))\n            self._next_rx_phase = p + 1", "C03.R"),
     Mutant("rx-counter-reset", BOSS, "    def W_got_verifier(self, verifier):\n        self._W.got_verifier(verifier)",
            "    def W_got_verifier(self, verifier):\n        self._next_rx_phase = 0\n        self._W.got_verifier(verifier)", "C03.R1"),
-    Mutant("observer-lifo", OBS, "            result = self._results.pop(0)", "            result = self._results.pop()", "C03.R3"),
+    Mutant("observer-lifo", OBS, "            d.callback(self._results.pop(0))", "            d.callback(self._results.pop())", "C03.R3"),
     Mutant("observer-deque-wrong-end", OBS, "        self._results = []\n", "        self._results = deque()\n", "C03.R3",
            also=((OBS, "from twisted.internet.defer import Deferred\n", "from collections import deque\nfrom twisted.internet.defer import Deferred\n"),
-                 (OBS, "            result = self._results.pop(0)", "            result = self._results.pop()"),
-                 (OBS, "self._eq.eventually(d.callback, self._results.pop(0))", "self._eq.eventually(d.callback, self._results.popleft())"))),
+                 (OBS, "            d.callback(self._results.pop(0))", "            d.callback(self._results.pop())"))),
+    Mutant("observer-pairing-scheduled-callback", OBS, "            d = self._observers.pop(0)\n            d.callback(self._results.pop(0))",
+           "            d = self._observers.pop(0)\n            self._eq.eventually(d.callback, self._results.pop(0))", "C03.R3",
+           "finding F19 put back: a Deferred cancelled between pairing and delivery loses the message"),
+    Mutant("observer-reader-bypass", OBS, "        else:\n            self._observers.append(d)\n            self._schedule_delivery()\n        return d",
+           "        elif self._results:\n            self._eq.eventually(d.callback, self._results.pop(0))\n        else:\n            self._observers.append(d)\n            self._schedule_delivery()\n        return d",
+           "C03.R3", "a new reader takes a queued event ahead of an older waiting one (seed C03-13 on the new layout)"),
+    Mutant("observer-deliver-called-directly", OBS, "        if self._results and self._observers:\n            self._eq.eventually(self._deliver)",
+           "        if self._results and self._observers:\n            self._deliver()", "C03.R3", "the reader's callback runs inside fire() / when_next_event()"),
     Mutant("send-drain-reversed", _SEND, "        for (phase, plaintext) in self._queue:", "        for (phase, plaintext) in reversed(self._queue):", "C03.R3"),
     Mutant("order-queue-insert-front", _ORD, "        self._queue.append((side, phase, body))", "        self._queue.insert(0, (side, phase, body))", "C03.R3"),
     Mutant("lost-clears-pending", _MB, "    @m.output()\n    def dequeue(self, phase, body):\n",
